@@ -778,7 +778,8 @@ func c12Scenario1(c *Ctx, si int) {
 		}
 		m.To = gen.PID{Node: "b@w5", ID: uint64(5000 + rng.Intn(100000)), Creation: 2002}
 		if strings.HasPrefix(m.Kind, "Terminate") {
-			m.To = gen.PID{Node: "a@w5", ID: base + uint64(i), Creation: 2002}
+			// a Terminate frame announces a LOCAL target: it carries this node's own incarnation
+			m.To = gen.PID{Node: "a@w5", ID: base + uint64(i), Creation: 1001}
 		}
 		if rng.Chance(1, 25) {
 			m.Stale = true
@@ -1242,7 +1243,7 @@ func c12Fields(m *c12Msg, typ byte) string {
 		if !keep {
 			return 0
 		}
-		return v % 255
+		return v%255 + 1 // order byte of an ordered frame is 1..255 (0 = round robin), see Generated/Arith.lean
 	}
 	f := map[string]uint64{}
 	f["from.ID"] = m.From.ID
@@ -1255,7 +1256,7 @@ func c12Fields(m *c12Msg, typ byte) string {
 		f["order"] = ord(m.To.ID)
 	case "SendExit":
 		f["to.ID"] = m.To.ID
-		f["order"] = m.To.ID % 255
+		f["order"] = m.To.ID%255 + 1
 		f["const"] = uint64(gen.MessagePriorityMax)
 	case "SendProcessID", "CallProcessID", "SendEvent":
 		f["order"] = ord(m.From.ID)
